@@ -221,11 +221,14 @@ func runC11(c *Ctx, tier string) {
 	runC11N1(c, append([]string{""}, c11ReaderPkgs...)...)
 	runDecoderCursorBound(c, "C11-B1")
 	runPullDoneStopsReader(c, "C11-O5")
+	runRecursionDepthBounded(c, "C11-D1")
+	runZeekTypesFillable(c, "C11-Z1")
+	runEnumIndexBounded(c, "C11-E1")
 }
 
 func init() {
 	register(&PropertyDef{ID: "C11", Run: runC11,
-		Explanation: "Decides structural clauses of crash/hang freedom on untrusted input: panic containment of reader goroutines (G1), decoder results tested before use (N1), untrusted sizes bounded before allocation (A1), input-dependent lookup errors returned not raised (P1), the zngio worker result protocol and cancellable channel operations (O4). Does NOT decide absence of implicit runtime panics (index out of range, nil map) on all byte strings, termination of the text parsers, or compile-time panics of the semantic analyzer.",
+		Explanation: "Decides structural clauses of crash/hang freedom on untrusted input: panic containment of reader goroutines (G1), decoder results tested before use (N1), untrusted sizes bounded before allocation (A1), input-dependent lookup errors returned not raised (P1), the zngio worker result protocol and cancellable channel operations (O4), a depth bound on every input-driven recursion of the readers and the query parser (D1), the Zeek parser producing only types its builder can fill (Z1), the ZJSON enum index bound (E1). Does NOT decide absence of implicit runtime panics (index out of range, nil map) on all byte strings, recursion over decoded structures (type depth of a ZNG typedef chain), or compile-time panics of the semantic analyzer.",
 		Assumptions: []string{"stdlib interface implementations (io.Reader, context.Context) do not panic", "a function with a deferred recover contains the panics of everything it calls synchronously"}})
 }
 
